@@ -18,6 +18,7 @@ REGISTRY = {
     "C10": "filtering",
     "C14": "labels",
     "C15": "config",
+    "C18": "transforms",
     "C20": "enums",
     "C06": "scores",
     "C07": "frames",
